@@ -668,10 +668,6 @@ class Machine:
         self.check_unchanged({id(m)}, 'V1-independence',
                              f'copy({a}, **{sorted(changes)})')
 
-    def fresh_tok(self):
-        self.nmut += 1
-        return ['mut', self.nmut]
-
     def op_mutate(self, op, rng):
         a = self.pick(op['s'], lambda s: s.kind == 'region')
         if a is None:
@@ -788,41 +784,52 @@ class Machine:
                     m.eq_unknown = True
                     _mark_unknown_up(self.slots, m)
             elif kind_choice == 'deep' and kinds:
+                # In-place edit through a public accessor.  The new value is
+                # SET by the harness to base + 0.001 * (n + 1), where base is
+                # the menu value of the field's (original) token and n a
+                # per-run counter: unique, well separated from every menu
+                # value and from every other edited value (beyond the 1e-5
+                # pixel tolerance), and small enough to keep annuli ordered.
                 f = rng.pick(sorted(kinds))
                 kind = kinds[f]
+                t0 = tm.tok[f]
+                base_tok = t0[1] if isinstance(t0, list) else t0
                 self.nmut += 1
-                delta = 0.0137 * self.nmut
+                eps = 0.001 * (self.nmut + 1)
                 v = getattr(to, f)
+                base = mk_value(kind, base_tok)
                 if kind == 'pixpos':
                     if rng.chance(0.5):
-                        v.x = v.x + delta
+                        v.x = base.x + eps
                     else:
-                        v.y = v.y - delta
-                    what += f'{f}.x/y += {delta:.4f} (in place)'
+                        v.y = base.y - eps
+                    what += f'{f}.x/y = base+-{eps:.3f} (in place)'
                 elif kind == 'pixverts':
                     i = rng.randrange(len(v.x))
                     if not v.x.flags.writeable:
                         return
-                    v.x[i] = v.x[i] + delta
-                    what += f'{f}.x[{i}] += {delta:.4f} (in place)'
+                    v.x[i] = base.x[i] + eps
+                    what += f'{f}.x[{i}] = base+{eps:.3f} (in place)'
                 elif kind in ('asize', 'angle'):
-                    import astropy.units as u
-                    if kind == 'asize':
-                        v += (delta * 1e-3) * v.unit
-                    else:
-                        v += delta * u.deg
-                    what += f'{f} += {delta:.4f} (in place Quantity)'
+                    newq = (base.value + eps) * base.unit
+                    v -= v
+                    v += newq.to(v.unit) if kind == 'angle' else newq
+                    if v.unit != base.unit:
+                        # re-expressed earlier: make it canonical again
+                        setattr(to, f, newq)
+                    what += f'{f} = base+{eps:.3f} (in place Quantity)'
                 elif kind == 'skyverts':
                     import astropy.units as u
                     from astropy.coordinates import SkyCoord
                     i = rng.randrange(len(v))
-                    new = SkyCoord((11.0 + delta) * u.deg,
-                                   (21.0 + delta) * u.deg, frame=v.frame)
+                    new = SkyCoord((base[i].spherical.lon.deg + eps) * u.deg,
+                                   (base[i].spherical.lat.deg + eps) * u.deg,
+                                   frame=v.frame)
                     v[i] = new
-                    what += f'{f}[{i}] = SkyCoord(...) (in place)'
+                    what += f'{f}[{i}] = SkyCoord(base+{eps:.3f}) (in place)'
                 else:
                     return
-                tm.tok[f] = self.fresh_tok()
+                tm.tok[f] = ['mut', base_tok, self.nmut]
                 touched.add(id(tm))
             elif kind_choice == 'reunit' and kinds:
                 # Equality under unit conversion is an astropy float matter
